@@ -3,7 +3,10 @@ classification of a value into input classes (used for signatures and non-trivia
 import struct
 
 STRS = ['', 'a', 'ab', 'abc', 'abcd', 'abcde', 'abcdefgh', '/x/y', 'ñ', 'ññ', 'ñññññ', '€uro', '😀', 'a😀b', 'dfg ', ',x']
-ADDRS = ['/a', '/ab', '/abc', '/abcd', '/s_new', '/n_set', '/b_allocRead', '/ñ', '/done', '/a/b/c', '/1']
+# non-ASCII addresses of every (character count, UTF-8 length) residue: the byte length crosses a 4-byte padding
+# boundary that the character count does not for '/ñu', '/ññ', '/año/€', '/😀'
+ADDRS = ['/a', '/ab', '/abc', '/abcd', '/s_new', '/n_set', '/b_allocRead', '/ñ', '/done', '/a/b/c', '/1',
+         '/ñu', '/ññ', '/señal', '/año/€', '/😀', '/b_ñ']
 INTS = [0, 1, -1, 2, 255, 256, 65535, 65536, -65536, 1000, 2 ** 31 - 1, -2 ** 31, 12345678, -98765]
 BIGINTS = [2 ** 31, -2 ** 31 - 1, 2 ** 32, 2 ** 40, -2 ** 35]
 FLOATS = [0.0, 1.0, -1.0, 0.5, 0.1, 440.0, 1e-3, 3.141592653589793, 1e38, -2.5e-40, float('inf'), 1e-50]
